@@ -129,6 +129,25 @@ def run_case(A, case, rng, policy, extra_args=(), with_mapping=True):
     return event, keys
 
 
+def _case_worker(arg):
+    seed0, chunk = arg
+    A = proj.api()
+    docproj.install_stub_measure(A, seed=seed0)
+    out = []
+    for i, case, seed in chunk:
+        evs = []
+        pair = {}
+        for policy in ("all", "any"):
+            event, keys = run_case(A, case, random.Random(seed), policy, with_mapping=(i % 5 != 0))
+            evs.append(event)
+            pair[policy] = keys
+        if not (case["alg"] in SUPER and not case["hassyn"]):
+            evs.append({"op": "cli-pair", "alg": case["alg"], "all": pair["all"], "any": pair["any"],
+                        "input": evs[-1]["input"]})
+        out.append((i, case, evs))
+    return out
+
+
 def run(ctx):
     A = proj.api()
     docproj.install_stub_measure(A, seed=ctx.seed)
@@ -157,21 +176,22 @@ def run(ctx):
     # ---- E2 ------------------------------------------------------------------
     events = []
     sel = cases if thorough else cases[ctx.seed % 2::2]
-    for i, case in enumerate(sel):
-        seed = rng.randrange(10 ** 9)
-        pair = {}
-        for policy in ("all", "any"):
-            event, keys = run_case(A, case, random.Random(seed), policy, with_mapping=(i % 5 != 0))
-            events.append(event)
-            pair[policy] = keys
-        if not (case["alg"] in SUPER and not case["hassyn"]):
-            events.append({"op": "cli-pair", "alg": case["alg"], "all": pair["all"], "any": pair["any"],
-                           "input": events[-1]["input"]})
-        if any(n in ("", "O0", "O1", "O3", "S1") for n in case["onames"]):
-            ctx.nontrivial.add(case)
-        if i % 400 == 3:
-            ctx.sample({"case": {"alg": case["alg"], "input": events[-2]["input"]}, "exit": events[-2]["exit"],
-                        "names_written": [l["onames"] for l in events[-2]["lines"][:1]], "printed": events[-2]["printed"]})
+    if len(sel) > 6000:      # the 4-leaf case space is sampled (every case still goes through the TLC machine above)
+        sel = rng.sample(sel, 6000)
+    jobs = [(i, case, rng.randrange(10 ** 9)) for i, case in enumerate(sel)]
+    import multiprocessing
+    size = max(1, len(jobs) // 128)
+    chunks = [jobs[k:k + size] for k in range(0, len(jobs), size)]
+    with multiprocessing.get_context("fork").Pool(16) as pool:
+        parts = pool.map(_case_worker, [(ctx.seed, chunk) for chunk in chunks])
+    for part in parts:
+        for i, case, evs in part:
+            events.extend(evs)
+            if any(n in ("", "O0", "O1", "O3", "S1") for n in case["onames"]):
+                ctx.nontrivial.add(case)
+            if i % 400 == 3:
+                ctx.sample({"case": {"alg": case["alg"], "input": evs[0]["input"]}, "exit": evs[0]["exit"],
+                            "names_written": [l["onames"] for l in evs[0]["lines"][:1]], "printed": evs[0]["printed"]})
     ctx.stage("E2 cli runs")
 
     # ---- E3: random inputs with cost options, a few true subprocesses -------------
